@@ -33,6 +33,7 @@ struct req {
 	char expect_payload[64]; /* JSON text expected under result/error when the owner answered ("" = any error) */
 	bool refused_ok;       /* immediate refusal would be legal (owner at its in-flight limit) */
 	bool answered_by_owner_id; /* for duplicate tests */
+	bool fresh;            /* sent but not yet seen by the daemon (same-batch deviation): its deadline counts from the moment the batch is handled */
 };
 static struct req reqs[64];
 static int nreqs;
@@ -40,6 +41,8 @@ static int reqctr;
 static char last_answered_rid[NSLOT][200];
 
 static bool elem_exists[3]; /* s1, s2, m1: false while the owner is away or has removed the element */
+static bool stalled[NSLOT]; /* the slot's client has stopped reading: what the daemon sends to it is not observable and may be refused */
+static bool defer_settle;   /* deviation: this action and the next become ready together and are harvested by one epoll_wait */
 
 static bool alive(int s)
 {
@@ -59,6 +62,7 @@ static int inflight_for_owner(int o)
 
 static void connect_slot(int s)
 {
+	stalled[s] = false;
 	conn[s] = jx_open(((s == K2) != (xp_param("swap", 0) != 0)) ? CL_WS : CL_RAW); /* swap=1: everybody but K2 speaks websocket */
 	gen[s]++;
 	seen[s] = 0;
@@ -93,7 +97,7 @@ static const char *last_action = "";
 static void finalise(struct req *r, const char *member, const char *payload)
 {
 	r->st = R_FINAL;
-	if (r->idtext[0] != 0 && alive(r->caller) && r->caller_gen == gen[r->caller]) {
+	if (r->idtext[0] != 0 && alive(r->caller) && r->caller_gen == gen[r->caller] && !stalled[r->caller]) {
 		r->answers_expected = 1;
 		snprintf(r->expect_member, sizeof(r->expect_member), "%s", member);
 		snprintf(r->expect_payload, sizeof(r->expect_payload), "%s", payload);
@@ -120,6 +124,11 @@ static void model_caller_gone(int k)
 	for (int i = 0; i < nreqs; i++) {
 		struct req *r = &reqs[i];
 		if (r->st == R_PENDING && r->caller == k && r->caller_gen == gen[k]) {
+			if (r->fresh) {
+				/* same batch: the complete request is in front of the end of stream, the daemon still routes it; nobody will be
+				 * answered (finalise() checks that the caller is gone), the owner may see it */
+				continue;
+			}
 			r->st = R_FINAL; /* dropped: nobody is answered */
 			r->answers_expected = r->answers_seen; /* whatever was (not) seen stays */
 		}
@@ -237,8 +246,8 @@ static void observe(void)
 			snprintf(key, sizeof(key), "answer-missing:want=%s:after=%s", r->expect_member, last_action);
 			fail_with_transcripts(key, "request %s of %s (to %s owned by %s) should have received its final %s by now but nothing arrived", r->idtext, SLOTNAME[r->caller], r->path, SLOTNAME[r->owner], r->expect_member);
 		}
-		if (r->st == R_PENDING && !r->delivered && r->refused_ok && r->idtext[0] == 0) {
-			r->st = R_FINAL; /* a request without id may have been refused at the owner's limit: unobservable, legal */
+		if (r->st == R_PENDING && !r->delivered && r->refused_ok && (r->idtext[0] == 0 || stalled[r->caller])) {
+			r->st = R_FINAL; /* a request without id (or of a caller that no longer reads) may have been refused at the owner's limit: unobservable, legal */
 			continue;
 		}
 		if (r->st == R_PENDING && !r->delivered && alive(r->owner) && r->owner_gen == gen[r->owner] && caller_here) {
@@ -286,6 +295,8 @@ static const struct action ACTIONS[] = {
     {"O1:remove(s1)", 7, O1, 0, 0},
     {"O1:add(m1)", 8, O1, 2, 0},
     {"O2:remove(s2)", 7, O2, 1, 0},
+    /* a caller stops reading: once the daemon's write buffer for it is full (96 bytes in the tiny build) its answers cannot be delivered */
+    {"K1:stops-reading", 9, K1, 0, 0},
 };
 #define NACTIONS ((int)(sizeof(ACTIONS) / sizeof(ACTIONS[0])))
 
@@ -328,6 +339,8 @@ static bool enabled(const struct action *a)
 		return alive(a->a) && elem_exists[a->b];
 	case 8:
 		return alive(a->a) && !elem_exists[a->b];
+	case 9:
+		return alive(a->a) && !stalled[a->a];
 	}
 	return false;
 }
@@ -353,13 +366,14 @@ static void do_request(int caller, int target, int idform, const char *payload, 
 		snprintf(r->idtext, sizeof(r->idtext), "\"q%d\"", reqctr);
 	}
 	r->deadline = sim_now() + 5000000000ULL;
+	r->fresh = defer_settle;
 	/* the per-owner limit: a put into the owner's routing table can only fail when at least 2^(order-1) entries are in flight */
 	r->refused_ok = inflight_for_owner(r->owner) >= (1 << (CONFIG_ROUTING_TABLE_ORDER - 1));
 	if (!alive(r->owner) || !elem_exists[target]) {
 		/* element is gone (with its owner, or removed by it): plain error */
 		r->st = R_FINAL;
 		r->delivered = true; /* nothing to deliver */
-		if (r->idtext[0]) {
+		if (r->idtext[0] && !stalled[caller]) {
 			r->answers_expected = 1;
 			snprintf(r->expect_member, sizeof(r->expect_member), "error");
 		}
@@ -411,7 +425,7 @@ static void apply(const struct action *a)
 		uint64_t d;
 		sim_next_deadline(&d);
 		for (int i = 0; i < nreqs; i++) {
-			if (reqs[i].st == R_PENDING && reqs[i].deadline <= d) {
+			if (reqs[i].st == R_PENDING && !reqs[i].fresh && reqs[i].deadline <= d) {
 				finalise(&reqs[i], "error", "");
 			}
 		}
@@ -432,13 +446,39 @@ static void apply(const struct action *a)
 		jx_sendf(conn[a->a], "{\"id\":\"rm%d\",\"method\":\"remove\",\"params\":{\"path\":\"%s\"}}", ++reqctr, TARGET_PATH[a->b]);
 		elem_exists[a->b] = false;
 		break;
+	case 9:
+		sim_set_window(conn[a->a], 0);
+		stalled[a->a] = true;
+		/* answers that were due but not yet seen can no longer be observed */
+		for (int i = 0; i < nreqs; i++) {
+			if (reqs[i].caller == a->a && reqs[i].caller_gen == gen[a->a] && reqs[i].st == R_PENDING) {
+				reqs[i].answers_expected = reqs[i].answers_seen;
+			}
+		}
+		break;
 	case 8:
 		jx_sendf(conn[a->a], "{\"id\":\"ad%d\",\"method\":\"add\",\"params\":{\"path\":\"%s\"%s}}", ++reqctr, TARGET_PATH[a->b], a->b == 2 ? "" : ",\"value\":0");
 		elem_exists[a->b] = true;
 		break;
 	}
-	jx_settle();
-	observe();
+	if (!defer_settle) {
+		jx_settle();
+		for (int sl = 0; sl < NSLOT; sl++) {
+			if (conn[sl] >= 0 && stalled[sl] && sim_conn_closed_by_daemon(conn[sl])) {
+				/* an answer for the peer that stopped reading could not be queued: the daemon may drop that peer (it harms only itself) */
+				model_owner_gone(sl);
+				model_caller_gone(sl);
+				conn[sl] = -1;
+				stalled[sl] = false;
+			}
+		}
+		observe();
+	}
+}
+
+static bool batchable(const struct action *a)
+{
+	return a->kind == 0 || a->kind == 1 || a->kind == 2 || a->kind == 4 || a->kind == 5 || a->kind == 7 || a->kind == 8;
 }
 
 static uint64_t model_hash(int remaining)
@@ -448,7 +488,7 @@ static uint64_t model_hash(int remaining)
 		h = hash_mix(h, alive(s) ? 1 : 0);
 		h = hash_mix(h, last_answered_rid[s][0] ? 1 : 0);
 	}
-	h = hash_mix(h, (uint64_t)elem_exists[0] + 2 * (uint64_t)elem_exists[1] + 4 * (uint64_t)elem_exists[2]);
+	h = hash_mix(h, (uint64_t)elem_exists[0] + 2 * (uint64_t)elem_exists[1] + 4 * (uint64_t)elem_exists[2] + 8 * (uint64_t)stalled[K1]);
 	/* multiset of live requests in creation order: (caller, owner, idform, delivered, state); finished ones only matter through the ledger */
 	for (int i = 0; i < nreqs; i++) {
 		struct req *r = &reqs[i];
@@ -498,7 +538,39 @@ static void run_interleavings(void)
 		int c = xp_choose(n, XP_ACTION, "action");
 		bb_printf(&trail, "%s%s", d ? " ; " : "", ACTIONS[en[c]].name);
 		xp_logf("## step %d: %s", d + 1, ACTIONS[en[c]].name);
-		apply(&ACTIONS[en[c]]);
+		int ride = 0;
+		if (batchable(&ACTIONS[en[c]]) && d + 1 < depth) {
+			ride = xp_choose(2, XP_DEV, "same-batch-with-next");
+		}
+		if (ride) {
+			defer_settle = true;
+			apply(&ACTIONS[en[c]]);
+			int en2[NACTIONS], n2 = 0;
+			for (int i = 0; i < nact; i++) {
+				if (batchable(&ACTIONS[i]) && enabled(&ACTIONS[i])) {
+					en2[n2++] = i;
+				}
+			}
+			if (n2 > 0) {
+				int c2 = xp_choose(n2, XP_ACTION, "action-in-same-batch");
+				bb_printf(&trail, " + %s", ACTIONS[en2[c2]].name);
+				xp_logf("## step %d (same batch): %s", d + 2, ACTIONS[en2[c2]].name);
+				apply(&ACTIONS[en2[c2]]);
+				d++;
+				xp_transition();
+			}
+			defer_settle = false;
+			for (int i = 0; i < nreqs; i++) {
+				if (reqs[i].fresh) {
+					reqs[i].fresh = false;
+					reqs[i].deadline = sim_now() + 5000000000ULL; /* the daemon arms the timer when it handles the request, i.e. now */
+				}
+			}
+			jx_settle();
+			observe();
+		} else {
+			apply(&ACTIONS[en[c]]);
+		}
 		xp_transition();
 		if (xp_state(model_hash(depth - d - 1))) {
 			xp_logf("## (state already explored with at least this much depth remaining)");
@@ -523,7 +595,8 @@ static void run_interleavings(void)
 		observe();
 	}
 	for (int i = 0; i < nreqs; i++) {
-		if (reqs[i].st == R_PENDING) {
+		bool caller_here = alive(reqs[i].caller) && reqs[i].caller_gen == gen[reqs[i].caller];
+		if (reqs[i].st == R_PENDING && caller_here) { /* a request whose caller left in the same batch it was sent in is dropped silently: nobody waits for it */
 			jx_log_transcripts();
 			xp_fail("request-never-finalised", "request %s of %s is still pending although no timer is armed any more (its deadline can never fire)", reqs[i].idtext, SLOTNAME[reqs[i].caller]);
 		}
